@@ -190,7 +190,7 @@ fn history<N: Ref>(seed: u64, rewriting: bool) -> Result<(), String> where N::Da
 
 fn run_for<N: Ref>(fails: &mut Vec<String>, deep: bool) where N::Data: std::fmt::Debug {
     let mut n = 0;
-    let seeds: u64 = if deep { 2000 } else { 100 };
+    let seeds: u64 = if deep { verif_scale(2000) } else { 100 };
     for seed in 1..=seeds { for rewriting in [true, false] {
         if let Err(e) = history::<N>(seed, rewriting) { if n < 3 { n += 1; let (c, m) = e.split_once(' ').unwrap(); fails.push(format!("FAIL EGraph::update_analysis {} {}", c, m)); } }
     }}
